@@ -225,10 +225,12 @@ pub enum Case {
 
 fn options_for(n: usize, rows: usize) -> Vec<Opt> {
     let none = (Bound::Included(1), Bound::Excluded(0));
-    let axes = [none, (Bound::Included(1), Bound::Excluded(3)), (Bound::Included(1), Bound::Unbounded), (Bound::Included(0), Bound::Unbounded)];
+    let axes0 = [none, (Bound::Included(1), Bound::Excluded(3)), (Bound::Included(1), Bound::Unbounded), (Bound::Included(0), Bound::Unbounded)];
+    // axis windows with an exclusive start as well
+    let axes = [axes0[0], axes0[1], axes0[2], axes0[3], (Bound::Excluded(0), Bound::Unbounded), (Bound::Excluded(1), Bound::Included(2))];
     // (row windows may start below zero: rows 0.. are hidden all the same and the ellipsis stands for them)
     let rws: Vec<(Bound<i32>, Bound<i32>)> = if rows > 1 {
-        let mut r = axes.to_vec();
+        let mut r = axes0.to_vec();
         r.push((Bound::Included(-1), Bound::Excluded(2)));
         r.push((Bound::Excluded(-2), Bound::Unbounded));
         r
